@@ -14,8 +14,9 @@ from ..core import Verdict
 PID = "C10"
 SHARDS = {"quick": 8, "thorough": 16}
 
-WS = " \t\n\r\f\v"
-TEXTS = ["ab", " ab ", "\n  ", " \t", "x}y ", " %} z", "a #} ", "{ b\n", "\r\n c \f\v"]
+# "all whitespace": every character str.isspace() accepts (what str.strip() removes), not just the ASCII ones
+WS = "".join(chr(c) for c in range(0x3100) if chr(c).isspace())
+TEXTS = ["ab", " ab ", "\n  ", " \t", "x}y ", " %} z", "a #} ", "{ b\n", "\r\n c \f\v", "\u00a0 d\u2003\u2028", "\x1c\x85e \u3000"]
 KINDS = ["out", "echo", "raw", "comment", "doc", "inline", "liquid", "tcomment"]
 BODIES = {
     "raw": [" b ", "{{ n }} {% if %}", "\n"],
@@ -148,6 +149,8 @@ def variants() -> list:
             elif k in ("inline", "tcomment"):
                 out.append({"t": k, "l": l, "r": r})
                 out.append({"t": k, "l": l, "r": r, "v": ""})  # empty body
+                if l == r:
+                    out.append({"t": k, "l": l, "r": r, "v": "see #42, {{ n }} # x"})  # the comment marker inside the body
             else:
                 out.append({"t": k, "l": l, "r": r})
     return out
